@@ -187,4 +187,12 @@ class Cov(np.ndarray):
         orb = value.copy(form="cartesian")
         if orb.cov is not None:
             del orb.cov
+
+        # The conversions are computed from this state vector, expressed in the
+        # frame recorded at creation. When the covariance is attached again to
+        # its statevector after this one changed frame, keep it consistent.
+        ref_frame = getattr(self, "_orb_frame", None)
+        if ref_frame is not None and orb.frame != ref_frame:
+            orb.frame = ref_frame
+
         self._data["orb"] = orb
